@@ -25,6 +25,7 @@ structure DocOk (langs : List String) (r : RepoMeta) (d : Doc) : Prop where
   secs : secsOk (contentLen d.content) d.secs = true
   lang_idem : langs.getD d.lang "" = "" → d.redetect = ""
   syms : d.syms.any (·.isNone) = false
+  symlen : d.syms.length = d.secs.length
 
 /-- every document of the builder is again copyable (so the written shard can be merged / exploded again) -/
 def OKI (b : Builder) : Prop := ∀ g ∈ b.groups, ∀ d ∈ g.2, DocOk b.langs g.1 d
@@ -133,7 +134,7 @@ theorem add_spec (langs : List String) (b : Builder) (pre : List (RepoMeta × Li
     simp only at hgm ⊢
     have hnewok : DocOk langs' r d' :=
       { br_nodup := hok.br_nodup, br_len := hok.br_len, mask_lt := hok.mask_lt, sub_nodup := hok.sub_nodup,
-        sub_lt := hok.sub_lt, secs := hok.secs, syms := hok.syms,
+        sub_lt := hok.sub_lt, secs := hok.secs, syms := hok.syms, symlen := hok.symlen,
         lang_idem := by
           intro he
           have : langs.getD d.lang "" = "" := by
